@@ -26,7 +26,7 @@ ORACLES = {
     "C04": ["oracle_c03_c04"],
     "C14": ["oracle_c14", "oracle_c03_c04", "oracle_c01", "oracle_c02_field"],
     "C08": ["oracle_c08", "c08_"],
-    "C09": ["oracle_c09", "oracle_c07_c09"],
+    "C09": ["oracle_c09", "oracle_c07_c09", "oracle_c03_c04_blackbox"],
     "C10": ["oracle_c10", "c10_"],
     "C11": ["oracle_c11", "c11_"],
     "C12": ["oracle_c12", "oracle_c11_c12"],
